@@ -585,8 +585,10 @@ class DeconstructedSerialization(BaseSerialization):
         cls_path, args, kwargs = cls._deconstruct_object(value)
         module_path, cls_name = cls_path.rsplit('.', 1)
 
-        if cls_path.startswith('django.db.models'):
-            cls_name = 'models.%s' % cls_name
+        if cls_path.startswith('django.db.models.'):
+            # Keep any sub-module (such as "functions.text") in the path,
+            # so the name can be resolved through "models" when loaded.
+            cls_name = 'models.%s' % cls_path[len('django.db.models.'):]
 
         all_args = []
 
